@@ -25,6 +25,7 @@ mod c15;
 mod c16;
 mod c17;
 mod c18;
+mod c19;
 
 use util::*;
 
@@ -96,6 +97,11 @@ fn main() {
         "C16" => c16::run(&p, &mut rep),
         "C17" => c17::run(&p, &mut rep),
         "C18" => c18::run(&p, &mut rep),
+        "C19" => c19::run(&p, &mut rep),
+        "C19CHILD" => {
+            c19::child(&p);
+            return;
+        }
         other => {
             eprintln!("no monitor for {}", other);
             std::process::exit(3);
